@@ -337,3 +337,23 @@ func genBoot(r *prng.R, i int) Scenario {
 	sc.Ops = ops
 	return sc
 }
+
+// the stale-stop shape: a restarted child's goroutine is parked before it calls Run (on the
+// "Executing Run()" record of startRunnable); the next restart reload stops the child while its new
+// Run has not been entered.
+func genStale(i int) Scenario {
+	style := []string{"U", "N"}[i%2]
+	sc := Scenario{ID: fmt.Sprintf("stale-%d-%s", i, style), Family: "stale"}
+	sc.Pool = []ChildSpec{{Name: 0, Style: style, Exit: "S", RK: "W"}, {Name: 1, Style: "U", Exit: "S", RK: "W"}}
+	sc.Init = []Entry{{0, 0}, {1, 0}}
+	last := []Entry{{0, 2}, {1, 2}}
+	if i%4 >= 2 {
+		last = []Entry{{1, 2}} // the child leaves the configuration altogether
+	}
+	sc.Ops = []Op{{Op: "run"}, {Op: "wait"},
+		{Op: "park", Sub: "Executing Run()"},
+		{Op: "reload", Cb: "some", Cfg: []Entry{{0, 1}}}, {Op: "waitpark"},
+		{Op: "reload", Cb: "some", Cfg: last}, {Op: "waitpark"},
+		{Op: "release"}, {Op: "wait"}, {Op: "stop"}, {Op: "wait"}, {Op: "end"}}
+	return sc
+}
